@@ -607,7 +607,9 @@ class Interp:
                     if contains_fn(p): raise Unspecified('identical container holding a function')
                     return
                 if len(path) > 40: raise Unspecified('cyclic comparison')
-                if len(p[1].items) != len(q[1].items): conj.append(False); return
+                # (whether the elements of lists of different lengths are still looked at is traversal order: walk the common
+                #  prefix so that a reachable type mismatch next to a definite inequality ends up oracle-silent)
+                if len(p[1].items) != len(q[1].items): conj.append(False)
                 for x, y in zip(list(p[1].items), list(q[1].items)): walk(x[0], y[0], path + [p[1]])
                 return
             if tp == 'obj':
@@ -615,8 +617,8 @@ class Interp:
                     if contains_fn(p): raise Unspecified('identical container holding a function')
                     return
                 if len(path) > 40: raise Unspecified('cyclic comparison')
-                if set(p[1].props) != set(q[1].props): conj.append(False); return
-                for k2 in sorted(p[1].props): walk(p[1].props[k2][0], q[1].props[k2][0], path + [p[1]])
+                if set(p[1].props) != set(q[1].props): conj.append(False)
+                for k2 in sorted(set(p[1].props) & set(q[1].props)): walk(p[1].props[k2][0], q[1].props[k2][0], path + [p[1]])
                 return
             raise Unspecified('equal ' + tp)
         walk(a, b, [])
